@@ -2442,4 +2442,74 @@ theorem II.tryToPrimSigned_neg {w n : Nat} {x : List Nat} (t : PTy) (hw : 1 ≤ 
       · have := hEM h'; omega
       · have := hEc h'; omega
 
+/-- C13: `TryFrom<BInt<N>> for iK` -/
+theorem II.tryToPrimSigned_spec {w n : Nat} {x : List Nat} (t : PTy) (hw : 1 ≤ w) (hn : 1 ≤ n)
+    (hk : 1 ≤ t.bits) (hs : t.signed = true) (hdiv : t.bits < w ∨ ∃ c, t.bits = c * w)
+    (hx : WF w n x) : ConvOkP t (II.tryToPrimSigned w x t) (S w x) := by
+  by_cases h : S w x < 0
+  · exact II.tryToPrimSigned_neg t hw hn hk hs hdiv hx h
+  · exact II.tryToPrimSigned_nonneg t hw hn hk hs hdiv hx (by omega)
+
+/-- C13: `TryFrom<BInt<N>> for uK` (`uint_try_from_bint!`) -/
+theorem II.tryToPrimUnsigned_spec {w n : Nat} {x : List Nat} (t : PTy) (hw : 1 ≤ w) (hn : 1 ≤ n)
+    (hk : 1 ≤ t.bits) (hs : t.signed = false) (hdiv : t.bits < w ∨ ∃ c, t.bits = c * w)
+    (hx : WF w n x) : ConvOkP t (II.tryToPrimUnsigned w x t) (S w x) := by
+  unfold II.tryToPrimUnsigned II.toBits
+  rw [isNegative_eq_decide hw hn hx]
+  by_cases h : S w x < 0
+  · simp only [h, decide_true, if_true]
+    refine ConvOkP.none ?_
+    simp only [repOf, hs, Bool.false_eq_true, if_false, repU]; omega
+  · simp only [h, decide_false, Bool.false_eq_true, if_false]
+    rw [S_of_nonneg hx (by omega)]
+    exact UI.tryToPrim_spec t hw hn hk hdiv hx
+
+theorem II.tryToPrim_spec {w n : Nat} {x : List Nat} (t : PTy) (hw : 1 ≤ w) (hn : 1 ≤ n)
+    (hk : 1 ≤ t.bits) (hdiv : t.bits < w ∨ ∃ c, t.bits = c * w) (hx : WF w n x) :
+    ConvOkP t (II.tryToPrim w x t) (S w x) := by
+  unfold II.tryToPrim
+  cases hs : t.signed
+  · simp only [Bool.false_eq_true, if_false]
+    exact II.tryToPrimUnsigned_spec t hw hn hk hs hdiv hx
+  · simp only [if_true]
+    exact II.tryToPrimSigned_spec t hw hn hk hs hdiv hx
+
+/-- C13: every `TryFrom<bnum> for primitive` -/
+theorem tryToPrim_spec {w n : Nat} {x : List Nat} (s : Bool) (t : PTy) (hw : 1 ≤ w) (hn : 1 ≤ n)
+    (hk : 1 ≤ t.bits) (hdiv : t.bits < w ∨ ∃ c, t.bits = c * w) (hx : WF w n x) :
+    ConvOkP t (tryToPrim w s x t) (valOf s w x) := by
+  unfold tryToPrim valOf
+  cases s
+  · simp only [Bool.false_eq_true, if_false]
+    exact UI.tryToPrim_spec t hw hn hk hdiv hx
+  · simp only [if_true]
+    exact II.tryToPrim_spec t hw hn hk hdiv hx
+
+/-- C13: `From<bool>` -/
+theorem fromBool_spec {w n : Nat} (hw : 2 ≤ w) (hn : 1 ≤ n) (b : Bool) :
+    II.fromBool n b = UI.fromBool n b ∧ WF w n (UI.fromBool n b)
+    ∧ U w (UI.fromBool n b) = b.toNat ∧ S w (UI.fromBool n b) = b.toNat := by
+  have h := UI.castFromBool_spec (w := w) (by omega) hn b
+  refine ⟨rfl, h.1, h.2, ?_⟩
+  unfold UI.fromBool UI.castFromBool
+  cases b
+  · simpa using S_zero w n
+  · simpa using S_one hw hn
+
+/-- C13: `From<char> for BUint<N>` whenever the code point fits (always when `BITS ≥ 32`;
+    for every valid `char` when `BITS ≥ 21`) -/
+theorem UI.fromChar_spec {w n c : Nat} (hn : 1 ≤ n) (hc : c < B 32) (hcM : c < M w n) :
+    FromOk false w n (UI.fromChar w n c) (c : Int) := by
+  obtain ⟨r, h1, h2, h3⟩ := UI.castFromChar_spec (w := w) hn hc
+  refine ⟨r, h1, h2, ?_⟩
+  simp only [valOf, Bool.false_eq_true, if_false]
+  rw [h3, wrapU_nat_of_lt hcM]
+
+/-- C13: `from_digit` -/
+theorem UI.fromDigitO_spec {w n d : Nat} (hn : 1 ≤ n) :
+    UI.fromDigitO n d = .ok (fromDigit n d) ∧ U w (fromDigit n d) = d := by
+  refine ⟨?_, U_fromDigit d hn⟩
+  obtain ⟨k, rfl⟩ : ∃ k, n = k + 1 := ⟨n - 1, by omega⟩
+  simp [UI.fromDigitO, upd, zero, fromDigit, List.replicate_succ]
+
 end Bnum
